@@ -304,7 +304,7 @@ impl InnerProductArgPC {
             let ghost k = it.index@;
             proof { assert(*info == lc_info@[k]); lemma_need_mono(lc_info@, k + 1, lc_info@.len() as int); }
 //@end
-//@fn id=ipa.check_combinations file=poly-commit/src/ipa_pc/mod.rs scope="impl<G, D, P> PolynomialCommitment<G::ScalarField, P> for InnerProductArgPC<G, D, P>" name=check_combinations props=C06,C05,C04,C17,C02
+//@fn id=ipa.check_combinations file=poly-commit/src/ipa_pc/mod.rs scope="impl<G, D, P> PolynomialCommitment<G::ScalarField, P> for InnerProductArgPC<G, D, P>" name=check_combinations props=C06,C05,C04,C17,C02,C11
     #[verifier::loop_isolation(false)]
     fn check_combinations<'a>(vk: &VK, linear_combinations: Vec<&'a LinearCombination>, commitments: Vec<&'a LabeledCommitment<Commitment>>, eqn_query_set: &BTreeSet<(String, (String, Pt))>, eqn_evaluations: &BTreeMap<(String, Pt), Fr>, proof: &BatchLCProof, sponge: &mut Sponge, rng: &mut Rng) -> (res: Result<bool, Error>)
     requires
@@ -454,7 +454,7 @@ impl InnerProductArgPC {
 //@rw 1 /combined_rand\.map_or\(coeff_new_rand, /=> opt_map_or(combined_rand, coeff_new_rand, 
 //@closure |r| => |r: Fr| -> (o: Fr) ensures o@ == f_add(r@, coeff_new_rand@)
 //@end
-//@fn id=ipa.open_combinations file=poly-commit/src/ipa_pc/mod.rs scope="impl<G, D, P> PolynomialCommitment<G::ScalarField, P> for InnerProductArgPC<G, D, P>" name=open_combinations props=C06,C04,C17
+//@fn id=ipa.open_combinations file=poly-commit/src/ipa_pc/mod.rs scope="impl<G, D, P> PolynomialCommitment<G::ScalarField, P> for InnerProductArgPC<G, D, P>" name=open_combinations props=C06,C04,C17,C11
     #[verifier::loop_isolation(false)]
     fn open_combinations<'a>(ck: &CK, linear_combinations: Vec<&'a LinearCombination>, polynomials: Vec<&'a LabeledPolynomial>, commitments: Vec<&'a LabeledCommitment<Commitment>>, query_set: &BTreeSet<(String, (String, Pt))>, sponge: &mut Sponge, states: Vec<&'a St>, rng: Option<&mut Rng>) -> (res: Result<BatchLCProof, Error>)
     requires
